@@ -341,3 +341,115 @@ Proof.
   - intros [E|[E|[]]]; injection E as <-; [left|right; reflexivity].
     cbn [t_attrs]. apply app_nil_r.
 Qed.
+
+(** ** explicit statements *)
+(** what the property says about the attributes the macro puts on the trait, over the option record *)
+Definition mock_spec (o : opts) (needs_api : bool) (added : list attr) : Prop :=
+  existsb is_unimock_attr added = unimock_value o && (negb needs_api || is_some (o_mock_api o)) /\
+  existsb is_mockall_attr added = mockall_value o /\
+  List.length (filter is_unimock_attr added) <= 1 /\
+  List.length (filter is_mockall_attr added) <= 1 /\
+  (forall a, In a added -> is_mock_attr a = true -> fst (ungate a) = negb (export_value o)).
+
+Lemma existsb_filter {A} (p : A -> bool) l : existsb p l = match filter p l with [] => false | _ => true end.
+Proof. induction l as [|x l IH]; [reflexivity|]. simpl. destruct (p x); [reflexivity | exact IH]. Qed.
+
+Lemma gen_added_spec o ti mode im fns :
+  mock_spec o (match ti with TPlain => true | _ => false end) (gen_added o ti mode im fns).
+Proof.
+  unfold mock_spec. rewrite !existsb_filter, filter_unimock_added, filter_mockall_added.
+  repeat split.
+  - unfold gen_unimock, unimock_params_empty. destruct (unimock_value o), ti, (o_mock_api o); reflexivity.
+  - unfold gen_mockall. destruct (mockall_value o); reflexivity.
+  - apply gen_unimock_len.
+  - apply gen_mockall_len.
+  - apply added_gated.
+Qed.
+
+Lemma c10_fn_attrs v attr h s body items :
+  expand_items v attr (InFn h s body) = Ok items ->
+  exists a f tr im added,
+    parse_fn_attr attr = Ok a /\ items = [f; ITrait tr; IImpl im] /\
+    t_attrs tr = added ++ filter is_trait_sub (h_attrs h) /\
+    mock_spec (apply_variant v (fa_opts a)) true added.
+Proof.
+  intros H. destruct (expand_fn_inv _ _ _ _ _ _ H) as (a & tf & tg & mode & ib & Ha & _ & _ & _ & ->).
+  exists a. do 4 eexists. split; [exact Ha|]. split; [reflexivity|]. split; [apply t_attrs_gen_trait_def|].
+  apply (gen_added_spec _ TPlain).
+Qed.
+
+Lemma c10_mod_attrs v attr h name body sigs sf items :
+  expand_items v attr (InMod h name body sigs sf) = Ok items ->
+  exists a user tr im added,
+    parse_fn_attr attr = Ok a /\
+    items = [IMod (h_attrs h) (h_vis h) name (user ++ [ITrait tr; IImpl im]);
+             IUse [] (fa_vis a) ([TId name] ++ path_sep ++ [TId (fa_trait a)])] /\
+    t_attrs tr = added ++ filter is_trait_sub (h_attrs h) /\
+    mock_spec (apply_variant v (fa_opts a)) true added.
+Proof.
+  intros H. destruct (expand_mod_inv _ _ _ _ _ _ _ _ H) as (_ & bitems & fl & a & fns0 & tg & mode & ib & _ & Ha & _ & _ & _ & ->).
+  exists a. do 4 eexists. split; [exact Ha|]. split; [reflexivity|]. split; [apply t_attrs_gen_trait_def|].
+  apply (gen_added_spec _ TPlain).
+Qed.
+
+Lemma c10_trait_attrs v attr h t items :
+  expand_items v attr (InTrait h t) = Ok items ->
+  exists a tr ds im added,
+    parse_trait_attr attr = Ok a /\
+    items = [ITrait tr] ++ map ITrait ds ++ [IImpl im] /\
+    parts (InTrait h t) items = Some (GTrait tr ds im) /\
+    t_attrs tr = added ++ h_attrs h /\
+    mock_spec (apply_variant v (ta_opts a)) false added /\
+    (forall d, In d ds -> t_attrs d = filter is_async_trait (h_attrs h) \/ t_attrs d = []).
+Proof.
+  intros H. destruct (expand_trait_inv _ _ _ _ _ H) as (a0 & fns & deleg & methods & Ha & _ & _ & Hd & _ & ->).
+  match goal with |- context [[ITrait ?tr] ++ deleg ++ [IImpl ?im]] =>
+    destruct (parts_trait h t tr deleg im (delegation_trait_defs_shape _ _ _ _ _ _ Hd)) as (ds & Hp & Hds) end.
+  exists a0. do 4 eexists. split; [exact Ha|]. split; [rewrite Hds; reflexivity|]. split; [exact Hp|].
+  split; [apply t_attrs_gen_trait_def|]. split; [apply (gen_added_spec _ TTrait)|].
+  intros d Hin. apply (delegation_attrs _ _ _ _ _ _ d Hd). rewrite Hds. apply in_map. exact Hin.
+Qed.
+
+(** ** the view *)
+Lemma c10_view_trait v attr h t items :
+  expand_items v attr (InTrait h t) = Ok items -> good (view_C10 (mkCtx v attr (InTrait h t)) items).
+Proof.
+  intros H. destruct (c10_trait_attrs _ _ _ _ _ H) as (a & tr & ds & im & added & Ha & -> & Hp & Ht & _ & Hds).
+  destruct (expand_trait_inv _ _ _ _ _ H) as (a0 & fns & deleg & methods & Ha0 & _ & _ & _ & _ & E).
+  rewrite Ha in Ha0. injection Ha0 as <-.
+  assert (Etr : t_attrs tr = gen_added (apply_variant v (ta_opts a)) TTrait MGeneric MRawTrait fns ++ h_attrs h).
+  { injection E as -> _. apply t_attrs_gen_trait_def. }
+  unfold view_C10, good, trait_attr_of. cbn [x_input x_attr x_variant]. rewrite Hp, Ha. cbn [decided v_app v_det v_holds ta_opts].
+  intros _. split; [reflexivity|]. apply andb_true_iff. split.
+  - rewrite Etr. apply (c10_core_trait _ TTrait).
+  - apply forallb_forall. intros d Hd. destruct (Hds d Hd) as [-> | ->].
+    + rewrite minus_filter_nil. reflexivity.
+    + rewrite minus_nil. reflexivity.
+Qed.
+
+(** [view_C10] computes the generated attributes as (trait attributes) minus (the user's attributes), one
+    occurrence each. For fn / mod only the user's sub-attributes ([async_trait], [automock] paths) are
+    re-applied to the trait, so a user attribute that is NOT re-applied and is token-identical to a
+    generated mock attribute (e.g. a hand-written [#[cfg_attr(test, ::mockall::automock)]] next to the
+    [mockall] option) cancels the generated one in the view: the unconditional statement is false
+    (see [c10_view_counterexample]). It holds whenever no such clash exists. *)
+Lemma c10_view_partial v attr i items :
+  expand_items v attr i = Ok items ->
+  match i with
+  | InFn h _ _ | InMod h _ _ _ _ => c10_no_clash (h_attrs h) = true
+  | _ => True
+  end ->
+  good (view_C10 (mkCtx v attr i) items).
+Proof.
+  intros H Hc. destruct i as [h s body|h|h t|h|h tp st body sigs sf|h|h name body sigs sf|h|]; try discriminate H.
+  - destruct (expand_fn_inv _ _ _ _ _ _ H) as (a & tf & tg & mode & ib & Ha & _ & _ & _ & ->).
+    unfold view_C10, good, fn_opts. cbn [x_input x_attr x_variant]. rewrite parts_fn, Ha. cbn [decided v_app v_det v_holds].
+    intros _. split; [reflexivity|]. rewrite t_attrs_gen_trait_def.
+    apply (c10_core_fn _ TPlain). apply no_clash_spec. exact Hc.
+  - apply c10_view_trait. exact H.
+  - unfold view_C10, good. cbn. discriminate.
+  - destruct (expand_mod_inv _ _ _ _ _ _ _ _ H) as (_ & bitems & fl & a & fns0 & tg & mode & ib & _ & Ha & _ & _ & _ & ->).
+    unfold view_C10, good, fn_opts. cbn [x_input x_attr x_variant]. rewrite parts_mod, Ha. cbn [decided v_app v_det v_holds].
+    intros _. split; [reflexivity|]. rewrite t_attrs_gen_trait_def.
+    apply (c10_core_fn _ TPlain). apply no_clash_spec. exact Hc.
+Qed.
